@@ -204,9 +204,10 @@ def run_case(c, rng, props):
                         for d in directions(xa):
                             lhs, rhs = rdot(vja, d), rdot(g, jd(fk_np, x, d, c.exact))
                             if not close(lhs, rhs, c.exact):
-                                p = "C09" if (onp.iscomplexobj(xa) or cplx_out) else "C01"
-                                problems.append((p, k, "VJP differs from J^T g: got %r, true %r (direction %s)" % (
-                                    lhs, rhs, onp.argwhere(d != 0).tolist())))
+                                # a real argument with a complex result belongs to both properties
+                                for p in (["C09"] if onp.iscomplexobj(xa) else (["C01", "C09"] if cplx_out else ["C01"])):
+                                    problems.append((p, k, "VJP differs from J^T g: got %r, true %r (direction %s)" % (
+                                        lhs, rhs, onp.argwhere(d != 0).tolist())))
                                 break
         if "fwd" in c.modes:
             try:
@@ -231,12 +232,14 @@ def run_case(c, rng, props):
                     true = jd(fk_np, x, v.reshape(xa.shape), c.exact)
                     ok = onp.all(jva == true) if c.exact else onp.all(onp.abs(jva - true) <= 2e-6 * (1 + onp.abs(true)))
                     if not ok:
-                        p = "C09" if (onp.iscomplexobj(xa) or cplx_out) else "C02"
-                        problems.append((p, k, "JVP differs from J v: got %s, true %s" % (
-                            onp.round(jva.ravel()[:4], 6).tolist(), onp.round(onp.asarray(true).ravel()[:4], 6).tolist())))
+                        for p in (["C09"] if onp.iscomplexobj(xa) else (["C02", "C09"] if cplx_out else ["C02"])):
+                            problems.append((p, k, "JVP differs from J v: got %s, true %s" % (
+                                onp.round(jva.ravel()[:4], 6).tolist(), onp.round(onp.asarray(true).ravel()[:4], 6).tolist())))
                     if vj is not None and onp.asarray(vj).shape == xa.shape and "C04" in props:
                         a, b = rdot(g, jva), rdot(onp.asarray(vj), v.reshape(xa.shape))
-                        if not close(a, b, c.exact):
+                        # both sides are computed analytically (no finite difference): they agree to rounding
+                        mass = float(onp.sum(onp.abs(onp.asarray(g) * jva)) + onp.sum(onp.abs(onp.asarray(vj) * v.reshape(xa.shape))))
+                        if not (a == b if c.exact else abs(a - b) <= 1e-10 * (1.0 + mass)):
                             problems.append(("C04", k, "<g, jvp v> = %r but <vjp g, v> = %r" % (a, b)))
     return problems, stats
 
@@ -311,7 +314,7 @@ def cases(rng, tier):
     for name, exact, gen in (("sum", True, None), ("mean", False, distinct), ("prod", False, positive), ("var", False, distinct),
                              ("std", False, distinct), ("max", False, distinct), ("min", False, distinct),
                              ("amax", False, distinct), ("amin", False, distinct)):
-        for sh in pick([(3,), (2, 3), (3, 1), (2, 1, 2), (2, 2, 1, 2), ()], 4):
+        for sh in pick([(3,), (2, 3), (3, 1), (2, 1, 2), (2, 2, 1, 2), ()], 4) + [(1,), (1, 1)]:
             for ax in pick(axes_of(len(sh)), 5):
                 for kd in (False, True):
                     x = iarr(rng, sh) if exact else gen(rng, sh)
@@ -319,7 +322,7 @@ def cases(rng, tier):
                         continue
                     tag = "axis=%s keepdims=%s shape=%s%s" % (ax, kd, sh, " axis<0" if (isinstance(ax, int) and ax < 0) else "")
                     add(name, tag, (lambda m, z, name=name, ax=ax, kd=kd: getattr(m, name)(z, axis=ax, keepdims=kd)), [x], [0], exact)
-            if name in ("var", "std") and sh not in ((), ):
+            if name in ("var", "std") and sh not in ((), (1,), (1, 1)):
                 add(name, "ddof=1 shape=%s" % (sh,), (lambda m, z, name=name: getattr(m, name)(z, ddof=1)), [gen(rng, sh) if gen else iarr(rng, sh)], [0], False)
     for sh in pick([(3,), (2, 3), (2, 1, 2)], 3):
         for ax in [None] + list(range(-len(sh), len(sh))):
@@ -524,6 +527,22 @@ def cases(rng, tier):
     for s1, s2 in (((3,), (3,)), ((2, 3), (2, 3)), ((3,), (4, 3)), ((2, 3), (3,)), ((2,), (2,))):
         tag = "shapes=%s,%s%s" % (s1, s2, " broadcast" if s1 != s2 else "")
         lin("cross", tag, (lambda m, a, b: m.cross(a, b)), [iarr(rng, s1), iarr(rng, s2)], (0, 1))
+    # ---- an explicit accumulator dtype must not leak into the gradient's dtype ----
+    # (linear reductions on small integers: exact in every float type)
+    for tag, f in (("sum(x,dtype=float32)", lambda m, z: m.sum(z, dtype=onp.float32)), ("sum(x,axis=0,dtype=float32)", lambda m, z: m.sum(z, axis=0, dtype=onp.float32)),
+                   ("x.sum(dtype=float32)", lambda m, z: z.sum(dtype=onp.float32)), ("cumsum(x,dtype=float32)", lambda m, z: m.cumsum(z, dtype=onp.float32)),
+                   ("sum(x,dtype=longdouble)", lambda m, z: m.sum(z, dtype=onp.longdouble)), ("trace(x,dtype=float32)", lambda m, z: m.trace(z, dtype=onp.float32)),
+                   ("sum(x,axis=(0,1),dtype=float16,keepdims)", lambda m, z: m.sum(z, axis=(0, 1), dtype=onp.float16, keepdims=True))):
+        add("dtype-kw", tag, f, [onp.array([[1.0, 2.0, -1.0], [3.0, -2.0, 3.0]])], [0], True)
+    # ---- the vector-space primitives used by gradient accumulation and by the checker (core.py) ----
+    from autograd.core import vspace as _vs
+    VA, VB = iarr(rng, (2, 3)), iarr(rng, (2, 3))
+    for tag, f, args in (("vs.add", lambda m, a, b: _vs(onp.zeros((2, 3))).add(a, b), [VA, VB]),
+                         ("vs.scalar_mul(x,a)", lambda m, a, b: _vs(onp.zeros((2, 3))).scalar_mul(a, b), [VA, 2.0]),
+                         ("vs.inner_prod", lambda m, a, b: _vs(onp.zeros((2, 3))).inner_prod(a, b), [VA, VB]),
+                         ("vs.covector", lambda m, a, b: _vs(onp.zeros((2, 3))).covector(a) + 0 * b, [VA, VB]),
+                         ("vs.mut_add(None,x)", lambda m, a, b: _vs(onp.zeros((2, 3))).mut_add(None, a) + b, [VA, VB])):
+        add("vspace", tag, f, args, [0, 1], True)
     # ---- positional call forms: the optional arguments of NumPy's signatures given by position ----
     P23, P232 = distinct(rng, (2, 3)), distinct(rng, (2, 3, 2))
     for tag, f, x, ex in (
@@ -580,7 +599,10 @@ def cases(rng, tier):
                          (3, 1, (2, 3, 2)), (2.5, -1, (2, 3, 2)), (4, 0, (2, 3, 2)), (None, 2, (2, 3, 2)),
                          # square and cubic inputs, where a mis-aligned broadcast of the norm would go unnoticed by shape
                          (3, 0, (3, 3)), (3, 1, (3, 3)), (3, -1, (3, 3)), (4, 1, (3, 3, 3)), (2.5, 0, (3, 3, 3)), (3, 2, (3, 3, 3)),
-                         (None, 1, (3, 3)), (2, -1, (3, 3, 3))):
+                         (None, 1, (3, 3)), (2, -1, (3, 3, 3)),
+                         # matrix norms the rules do not implement: both modes must raise or be right
+                         (2, None, (2, 3)), (2, (0, 1), (2, 3, 2)), (-2, None, (3, 3)), (1, None, (2, 3)), (onp.inf, None, (2, 3)),
+                         (2, (2, 0), (2, 3, 2)), (1, (0, 1), (2, 3, 2))):
         add("linalg.norm", "ord=%s axis=%s shape=%s" % (ordv, ax, sh), (lambda m, a, ordv=ordv, ax=ax: m.linalg.norm(a, ordv, ax)), [distinct(rng, sh)], [0], False)
     # ---- fft (complex-linear: exact) ----
     for name, sh, kw in (("fft", (4,), {}), ("ifft", (4,), {}), ("fft", (2, 4), {"axis": 0}), ("fft2", (2, 4), {}),
@@ -596,7 +618,12 @@ def cases(rng, tier):
                          ("rfft", (3, 4), {"axis": 0}), ("rfft", (4, 3), {"axis": 0}), ("rfftn", (4, 3), {"axes": (1, 0)}),
                          ("rfftn", (3, 4), {"axes": (1, 0)}), ("rfft2", (2, 3, 4), {"axes": (2, 1)}), ("rfft2", (2, 4, 3), {"axes": (2, 1)}),
                          ("irfft", (3, 4), {"axis": 0}), ("fft", (3, 4), {"axis": 0, "n": 5}), ("ifft", (4,), {"n": 6, "norm": "forward"}),
-                         ("fftn", (2, 4), {"s": (3, 5)}), ("fft2", (4, 4), {"axes": (1, 0)}), ("ifftn", (2, 4), {"axes": (1,)})):
+                         ("fftn", (2, 4), {"s": (3, 5)}), ("fft2", (4, 4), {"axes": (1, 0)}), ("ifftn", (2, 4), {"axes": (1,)}),
+                         # the same shapes with other axes right after each other (a per-shape cache must not leak)
+                         ("rfft", (4, 6), {"axis": 1}), ("rfft", (6, 4), {"axis": 0}), ("rfft", (4, 4), {"axis": 1}), ("rfft", (4, 4), {"axis": 0}),
+                         ("irfft", (3, 4), {"axis": 0}), ("irfft", (4, 3), {"axis": 1}), ("rfft2", (4, 4), {"axes": (0, 1)}),
+                         ("rfft2", (4, 4), {"axes": (1, 0)}), ("rfftn", (4, 4, 4), {"axes": (0, 2)}), ("rfftn", (4, 4, 4), {"axes": (2, 0)}),
+                         ("rfftn", (4, 4, 4), {"axes": (1, 2)})):
         add("fft." + name, "shape=%s %s" % (sh, kw), (lambda m, a, name=name, kw=kw: getattr(m.fft, name)(a, **kw)), [distinct(rng, sh)], [0], False)
     return out
 
@@ -657,6 +684,13 @@ def complex_cases(rng, tier):
     add("linalg.norm", "complex nuc", (lambda m, a: m.linalg.norm(a, "nuc")), [gz], [0], False)
     add("fft.fft", "complex input", (lambda m, a: m.fft.fft(a)), [gz[0]], [0], True if False else False)
     add("fft.ifft", "complex input", (lambda m, a: m.fft.ifft(a)), [gz[0]], [0], False)
+    from autograd.core import vspace as _vs
+    CZ = onp.zeros((2, 3), dtype=complex)
+    for tag, f, args in (("vs.add", lambda m, a, b: _vs(CZ).add(a, b), [z23, w23]),
+                         ("vs.scalar_mul", lambda m, a, b: _vs(CZ).scalar_mul(a, b), [z23, 2.0]),
+                         ("vs.inner_prod", lambda m, a, b: _vs(CZ).inner_prod(a, b), [z23, w23]),
+                         ("vs.covector", lambda m, a, b: _vs(CZ).covector(a) + 0 * b, [z23, w23])):
+        add("vspace", tag, f, args, [0, 1], True)
     # the FFT family: real -> complex (explicit lengths, norms, axes: raise or be right) and complex -> complex
     for name, sh, kw in (("rfft", (4,), {}), ("rfft", (4,), {"n": 5}), ("rfft", (6,), {"n": 3}), ("rfft", (4,), {"n": 6}), ("rfft", (4,), {"n": 2}),
                          ("rfft", (5,), {"n": 4}), ("rfft", (4,), {"norm": "ortho"}), ("rfft", (4,), {"norm": "forward"}),
@@ -698,7 +732,7 @@ def main():
     rng = random.Random(cfg["seed"])
     props = set(cfg["props"])
     cs = cases(rng, cfg.get("tier", "quick")) if (props - {"C09"}) or cfg.get("real_for_c09") else []
-    if "C09" in props or "C05" in props:
+    if props & {"C09", "C05", "C04"}:
         cs = cs + complex_cases(rng, cfg.get("tier", "quick"))
     only = cfg.get("only")
     out = {"n": 0, "keys": [], "bad": [], "dist": {}, "raised": 0, "samples": []}
